@@ -151,7 +151,13 @@ class Gen:
                         types.append({"k": "typedef", "ty": t, "name": name, "arr": arr})
             else:
                 types.append(self.union(i, name, names, enums, consts, types, o, flags, lower))
-        items = consts + enums + types
+        # constants defined as another constant (`const A = B;` prints `pub const A: u32 = B;`): declared before or after their
+        # target, never used as a bound or a label (as a bound they are an emitter error in every order)
+        alias = []
+        if dec_consts and r.chance(1, 2):
+            for _ in range(1 + r.below(2)):
+                alias.append({"k": "const", "name": self.fresh("A"), "val": r.choice(dec_consts)["name"]})
+        items = (alias + consts if r.chance(1, 2) else consts + alias) + enums + types
         return items, {"flags": sorted(flags)}
 
     def union(self, i, name, names, enums, consts, types, o, flags, lower):
@@ -611,6 +617,49 @@ def catalog():
         pairs.append({"k": "struct", "name": "all_pairs", "fields": [
             {"ty": q["name"], "name": "f%d" % k, "arr": ["var", "2"], "opt": False} for k, q in enumerate(pairs)]})
         spec("struct:pairs%d" % half, pairs)
+    # extreme declared maxima (as literals and through constants): the bound is parsed, printed and compared as it stands
+    ext = [{"k": "const", "name": "BIG", "val": "4294967295"}, {"k": "const", "name": "HALF", "val": "2147483648"}, {"k": "const", "name": "ONE", "val": "1"},
+           {"k": "const", "name": "ZERO", "val": "0"}]
+    for bi, bnd in enumerate(["4294967295", "2147483648", "2147483647", "1", "0", "BIG", "HALF", "ONE", "ZERO"]):
+        ext.append({"k": "struct", "name": "ext%d" % bi, "fields": [
+            {"ty": "opaque", "name": "o", "arr": ["var", bnd], "opt": False}, {"ty": "string", "name": "s", "arr": ["var", bnd], "opt": False},
+            {"ty": "inner", "name": "v", "arr": ["var", bnd], "opt": False}, {"ty": "int", "name": "tail", "arr": None, "opt": False}]})
+        ext.append({"k": "typedef", "ty": "opaque", "name": "exto%d" % bi, "arr": ["var", bnd]})
+        ext.append({"k": "typedef", "ty": "inner", "name": "extv%d" % bi, "arr": ["var", bnd]})
+    ext.append({"k": "struct", "name": "one_each", "fields": [{"ty": "opaque", "name": "o", "arr": ["fixed", "1"], "opt": False},
+                                                              {"ty": "inner", "name": "v", "arr": ["fixed", "ONE"], "opt": False}]})
+    spec("bounds:extreme", ext)
+    # long fixed arrays (an emitter may treat "many elements" differently) and the payload lengths real protocols use for ids
+    longs = []
+    for n in (31, 32, 33, 40, 64):
+        longs.append({"k": "struct", "name": "long%d" % n, "fields": [
+            {"ty": "unsigned int", "name": "a", "arr": ["fixed", str(n)], "opt": False}, {"ty": "hyper", "name": "b", "arr": ["fixed", str(n)], "opt": False},
+            {"ty": "bool", "name": "c", "arr": ["fixed", str(n)], "opt": False}, {"ty": "double", "name": "d", "arr": ["fixed", str(n)], "opt": False},
+            {"ty": "color", "name": "e", "arr": ["fixed", str(n)], "opt": False}, {"ty": "opaque", "name": "f", "arr": ["fixed", str(n)], "opt": False},
+            {"ty": "int", "name": "tail", "arr": None, "opt": False}]})
+    longs.append({"k": "const", "name": "NSLOTS", "val": "40"})
+    longs.append({"k": "struct", "name": "table", "fields": [{"ty": "unsigned int", "name": "slots", "arr": ["fixed", "NSLOTS"], "opt": False},
+                                                              {"ty": "unsigned int", "name": "tail", "arr": None, "opt": False}]})
+    for n in (8, 12, 16, 20, 28, 32):
+        longs.append({"k": "struct", "name": "ids_%d" % n, "fields": [
+            {"ty": "opaque", "name": "fixed_id", "arr": ["fixed", str(n)], "opt": False}, {"ty": "opaque", "name": "var_id", "arr": ["var", str(n)], "opt": False}]})
+    spec("fixed:long", longs)
+    # names that look like primitive spellings but are not (RFC 1813 declares `uint64`, `uint32`, …): they are ordinary identifiers
+    near = ["uint32", "int32", "uint64", "int64", "uint", "uint8", "float32", "float64", "boolean", "integer", "str", "bytes_t", "opaque_t",
+            "string_t", "void_t", "unsigned_int", "Bool", "Int", "hyper_t", "u_int", "u_long", "longlong_t", "size_t", "char_t"]
+    nitems = [{"k": "typedef", "ty": ["unsigned int", "int", "unsigned hyper", "hyper"][i % 4], "name": nm, "arr": None} for i, nm in enumerate(near)]
+    nitems.append({"k": "struct", "name": "uses_near", "fields": [{"ty": nm, "name": "f_%d" % i, "arr": None, "opt": False} for i, nm in enumerate(near)]})
+    nitems.append({"k": "struct", "name": "named_near", "fields": [{"ty": "int", "name": nm, "arr": None, "opt": False} for nm in near]})
+    spec("names:near-primitives", nitems)
+    # zero-sized Rust types (a union with only void arms is a one-variant enum): as elements, boxed, in fixed arrays
+    spec("zero-sized", [
+        {"k": "enum", "name": "only", "members": [["ONE", "1"]]},
+        {"k": "union", "name": "uz", "swty": "only", "swvar": "d", "arms": [{"labels": ["ONE"], "body": "void"}]},
+        {"k": "union", "name": "uz2", "swty": "int", "swvar": "d", "arms": [{"default": True, "labels": [], "body": "void"}]},
+        {"k": "struct", "name": "hz", "fields": [{"ty": "uz", "name": "xs", "arr": ["var", ""], "opt": False}, {"ty": "uz", "name": "ys", "arr": ["var", "3"], "opt": False},
+                                                {"ty": "uz", "name": "zs", "arr": ["fixed", "2"], "opt": False}, {"ty": "uz", "name": "o", "arr": None, "opt": True},
+                                                {"ty": "uz2", "name": "ws", "arr": ["var", ""], "opt": False}, {"ty": "int", "name": "tail", "arr": None, "opt": False}]},
+        {"k": "typedef", "ty": "uz", "name": "uzs", "arr": ["var", ""]}])
     spec("array-recursive", [{"k": "struct", "name": "forest", "fields": [{"ty": "forest", "name": "kids", "arr": ["var", ""], "opt": False}]},
                              {"k": "typedef", "ty": "grove", "name": "glist", "arr": ["var", ""]},
                              {"k": "struct", "name": "grove", "fields": [{"ty": "int", "name": "v", "arr": None, "opt": False}, {"ty": "glist", "name": "sub", "arr": None, "opt": False}]},
